@@ -8,6 +8,10 @@ ABM_TECH = "TLA+ spec (spec/Abm.tla) + TLC exhaustive invariants; TLC-generated 
 SRV_TECH = "TLA+ spec (spec/Server.tla) + TLC exhaustive invariants/action properties; TLC-generated request histories replayed into a real BptkServer (Flask test client, controlled clock, FileAdapter on a scratch directory) with every response compared"
 EXPR_TECH = "TLA+ spec (spec/Expr.tla + spec/Rat.tla: expression trees, exact rational reference semantics, concrete-syntax renderers) enumerated exhaustively by TLC; every enumerated tree evaluated by the implementation and compared with the spec's value"
 CHECKS = {
+ "C10": dict(cat="model_checking", ref="6/C10",
+    text="spec/Arr.tla: exact results (module Rat) of element-wise + - * / between arrays of equal shape and between array and scalar in both operand orders, the dot product in its vector.vector, matrix.vector, vector.matrix and matrix.matrix forms, and sum, product, mean, median, variance, rank (every rank up to beyond the size) and size, with the shape rules that make an operation invalid; TLC enumerates every shape pair up to 3x3 (1012 cases, DotShapeOK checked); each case is built with indexed and with named arrays, scalar operands as elements and as literals, plus equal-shaped operands with different index names, assigned to a converter and read back entry by entry; every spec result is also cross-checked against numpy itself",
+    note="dimensions 1..3, integer entries; stddev compared through the exact variance; a valid operation the DSL rejects with an exception is counted but is not a wrong value",
+    tech="TLA+ spec (spec/Arr.tla) enumerated exhaustively by TLC; every case replayed into the DSL and compared entry by entry (numpy as independent cross-check of the spec)"),
  "C05": dict(cat="model_checking", ref="6/C05",
     text="spec/TimeGrid.tla: the clock of a run / session as a state machine over decimal times scaled by 10^4 (exact start + i*dt); TLC checks Increasing, OnGrid, NoGap, EndsAtStop over the lattice start in {0,1,.5,.1,2.25,10,100.3} x dt in {1,2,.5,.25,.125,.0625,.1,.2,.05,.02,.01,.3,.7} x n and emits every grid; for every grid util.timerange is compared label by label with exact float/repr equality against the decimal literal, and for a seeded subset the index of run_scenarios (df), the keys of dict and json results, Element.plot(return_df=True), run_step keys, session_results keys, a scenario reaching the same grid through runspecs on a coarser model, the stock values (one integration step per interval) and three arithmetic routes to every grid point (i*dt, repeated addition, stop - j*dt) which must hit the same memo cell",
     note="decimals with <= 4 digits; stop on the grid; sessions begun with the model's dt",
